@@ -84,11 +84,7 @@ theorem resolveA_shape : ∀ (y : Ys) (s : St) (v : Val), (resolveA y s).1 = .ok
     · simp only [hm, Bool.false_eq_true, if_false] at h; simp only [shapeOk]; exact resolveA_shape y s v h
     · simp [hm] at h
   | .ofut b n, s, v, h => by cases b <;> simp [resolveA] at h; subst h; simp [shapeOk]
-  | .gco y, s, v, h => by
-    unfold resolveA at h
-    cases hm : s.mode
-    · simp only [hm, Bool.false_eq_true, if_false] at h; simp only [shapeOk]; exact resolveA_shape y s v h
-    · simp [hm] at h
+  | .gco y, s, v, h => by simp only [resolveA] at h; simp only [shapeOk]; exact resolveA_shape y s v h
   | .tup l, s, v, h => by
     simp only [resolveA] at h
     rcases hg : (gatherA l s).1 with vs | e | w <;> simp [hg, OutL.wrap] at h
